@@ -363,7 +363,7 @@ def checkquorum(cx):
     ok = bool(rets) and all(v[0] == "call" and v[1].endswith("ProgressTracker::has_quorum") for _, v, _ in rets)
     cx.check(ok, "shape:has_quorum", "quorum_recently_active answers has_quorum(active set)")
     ins = [c for c in cx.prog.call_sites_of("HashSet::insert") if c.fn is qra]
-    cx.check(len(ins) >= 2, "shape:inserts", "the active set receives the node itself and the recently active peers")
+    cx.check(len(ins) >= 1, "shape:inserts", "the active set receives the node itself and the recently active peers (one insert under `is self || recent_active`, or one per case)")
     for c in ins:
         def cond(l):
             if l[0] == "is" and l[2] is True and is_f(l[1], "Progress.recent_active"):
